@@ -846,6 +846,8 @@ class _NpProxy:
 
 
 def run_semseg(case):
+    if case["sub"] == "wpipe":
+        return run_wpipe(case)
     from torchvision.transforms.functional import crop
     import kappadata.transforms.semseg as S
     from kappadata.transforms.semseg.kd_semseg_overlapped_multi_crop import KDSemsegOverlappedMultiCrop
@@ -949,7 +951,7 @@ def semseg_oks(case, real):
 
 def req_semseg(case, real):
     sub, H, W = case["sub"], case["H"], case["W"]
-    if str(real.get("out", "")).startswith("ctor:"):
+    if sub == "wpipe" or str(real.get("out", "")).startswith("ctor:"):
         return None
     tape = tape_json(real["log"])
     if sub == "crop":
@@ -1048,6 +1050,8 @@ def views_semseg(case, real, model):
 
 
 def oracle_semseg(case, real):
+    if case["sub"] == "wpipe":
+        return oracle_wpipe(case, real)
     from torchvision.transforms.functional import crop, hflip
     sub, H, W = case["sub"], case["H"], case["W"]
     out = str(real.get("out", ""))
@@ -1128,6 +1132,8 @@ def oracle_semseg(case, real):
 
 
 def sig_semseg(case, real):
+    if case["sub"] == "wpipe":
+        return sig_wpipe(case, real)
     H, W = case["H"], case["W"]
     th, tw = case.get("size", [0, 0])
     rel = lambda a, b: "lt" if a < b else ("eq" if a == b else ("+1" if a == b + 1 else "gt"))
@@ -1136,6 +1142,8 @@ def sig_semseg(case, real):
 
 
 def gen_semseg(rng, big=False):
+    if rng.random() < 0.25:
+        return gen_wpipe(rng, big)
     sub = rng.choice(["crop"] * 4 + ["pad"] * 2 + ["flip", "resize", "resizeold", "resizefix", "multi"] + ["pipe"] * 3)
     H, W = rng.randint(1, 40), rng.randint(1, 40)
     th = rng.choice([1, 2, 3, 4, 8, 16, 32, 33, H, max(1, H - 1), H + 1])
@@ -1160,6 +1168,244 @@ def gen_semseg(rng, big=False):
             case["H"], case["W"] = ch * rng.randint(1, 40 // ch), cw * rng.randint(1, 40 // cw)
         case["kind"] = "tensor"
     return case
+
+
+# ---- SemsegTransformWrapper with free pipelines (sub = "wpipe"): oracle only, no model ------------------------------------------------
+# Paired transforms (pad / crop / flip) in any order, with stochastic image-only transforms (noise, randomly applied noise, a plain callable)
+# placed anywhere between them; several images of different sizes; seeded and unseeded wrappers; every public way of asking for the two
+# members (fused ModeWrapper "x semseg", getitem_xsemseg, and -- seeded wrappers only -- one member after the other through getitem_x /
+# getitem_semseg or two ModeWrappers, in both orders); repeated epochs; a pickled / deep-copied wrapper after the first access; a peer wrapper
+# that shares the transform objects and is used in between.  Judged by decoding the coordinate encoding: every output position of the mask has
+# to be the label of the input pixel the image shows there (noise amplitudes stay below half a unit, so rounding recovers the position).
+WPIPE_XONLY = ("noise", "rnoise", "unoise", "apply", "id")
+
+
+def wpipe_step(step):
+    import kappadata.transforms as T
+    import kappadata.transforms.semseg as S
+    k = step["t"]
+    if k == "pad":
+        return S.KDSemsegPad(size=tuple(step["size"]))
+    if k == "crop":
+        return S.KDSemsegRandomCrop(size=tuple(step["size"]))
+    if k == "flip":
+        return S.KDSemsegRandomHorizontalFlip(p=step["p"])
+    if k == "noise":
+        return T.KDAdditiveGaussianNoise(std=1e-3)
+    if k == "rnoise":
+        return T.KDRandomAdditiveGaussianNoise(p=step["p"], std=1e-3)
+    if k == "unoise":
+        return T.KDAdditiveUniformNoise(magnitude=0.25)
+    if k == "apply":
+        return T.KDRandomApply(transform=T.KDAdditiveGaussianNoise(std=1e-3), p=step["p"])
+    if k == "id":
+        return _Identity()
+    raise KeyError(k)
+
+
+def wpipe_image(kind, h, w):
+    if kind == "f64":
+        return coord_tensor(h, w, torch.float64)
+    if kind == "u8":
+        return coord_tensor(h, w)
+    return coord_tensor(h, w, torch.float32)
+
+
+def wpipe_size(steps, h, w):
+    for s in steps:
+        if s["t"] == "pad":
+            h, w = max(h, s["size"][0]), max(w, s["size"][1])
+        elif s["t"] == "crop":
+            h, w = min(h, s["size"][0]), min(w, s["size"][1])
+    return [h, w]
+
+
+def wpipe_plan(case):
+    """the accesses of the run: (epoch, idx, how)"""
+    plan = []
+    for ep in range(case.get("epochs", 1)):
+        for idx in case["order"]:
+            for how in case["access"]:
+                plan.append((ep, idx, how))
+    return plan
+
+
+def run_wpipe(case):
+    state = np.random.get_state()
+    np.random.seed(random.Random(json.dumps(case, sort_keys=True, default=str)).randrange(2 ** 31))
+    try:
+        return _run_wpipe(case)
+    finally:
+        np.random.set_state(state)
+
+
+def _run_wpipe(case):
+    import copy
+    import pickle
+    from tests_util.datasets.semseg_dataset import SemsegDataset
+    from kappadata.wrappers import ModeWrapper, SemsegTransformWrapper, SubsetWrapper
+    real = {"log": [], "records": []}
+    images = [wpipe_image(case.get("kind", "f32"), h, w) for h, w in case["images"]]
+    masks = [coord_mask(h, w) for h, w in case["images"]]
+    real["_images"], real["_masks"] = images, masks
+    src = list(range(len(images)))
+    try:
+        ds = SemsegDataset([im.clone() for im in images], [m.clone() for m in masks])
+        if case.get("indices") is not None:
+            src = list(case["indices"])
+            ds = SubsetWrapper(ds, indices=list(src))
+        ts = [wpipe_step(s) for s in case["steps"]]
+        wr = SemsegTransformWrapper(ds, transforms=ts, seed=case.get("seed"))
+        peer = None
+        if case.get("peer"):
+            # a second wrapper over the same dataset that shares the transform objects and uses another seed
+            peer = SemsegTransformWrapper(ds, transforms=ts, seed=None if case.get("seed") is None else case["seed"] + 101)
+    except Exception as e:
+        real["out"] = "ctor:" + exc_kind(e)
+        real["msg"] = f"{type(e).__name__}: {e}"[:200]
+        return real
+    real["_src"] = src
+    hist = case.get("hist", "fresh")
+    try:
+        for k, (ep, idx, how) in enumerate(wpipe_plan(case)):
+            def other():
+                if peer is not None:
+                    peer.getitem_xsemseg((idx + 1) % len(src), ctx={})
+            if how == "fused":
+                x, s = wr.getitem_xsemseg(idx, ctx={})
+            elif how == "modefused":
+                x, s = ModeWrapper(dataset=wr, mode="x semseg")[idx]
+            elif how == "modefused_sx":
+                s, x = ModeWrapper(dataset=wr, mode="semseg x")[idx]
+            elif how == "getitem_xs":
+                x = wr.getitem_x(idx, ctx={})
+                other()
+                s = wr.getitem_semseg(idx, ctx={})
+            elif how == "getitem_sx":
+                s = wr.getitem_semseg(idx)
+                other()
+                x = wr.getitem_x(idx)
+            elif how == "mode_xs":
+                x = ModeWrapper(dataset=wr, mode="x")[idx]
+                other()
+                s = ModeWrapper(dataset=wr, mode="semseg")[idx]
+            elif how == "mode_sx":
+                s = ModeWrapper(dataset=wr, mode="semseg")[idx]
+                other()
+                x = ModeWrapper(dataset=wr, mode="x")[idx]
+            elif how == "mixed":
+                x = wr.getitem_xsemseg(idx, ctx={})[0]
+                other()
+                s = ModeWrapper(dataset=wr, mode="index semseg")[idx][1]
+            else:
+                raise KeyError(how)
+            real["records"].append({"ep": ep, "idx": idx, "src": src[idx], "how": how, "x": x, "s": s})
+            if k == 0 and hist == "pickle":
+                wr = pickle.loads(pickle.dumps(wr))
+            elif k == 0 and hist == "deepcopy":
+                wr = copy.deepcopy(wr)
+        real["out"] = "ok"
+    except Exception as e:
+        real["out"] = exc_kind(e)
+        real["msg"] = f"{type(e).__name__}: {e}"[:200]
+    return real
+
+
+def oracle_wpipe(case, real):
+    out = str(real.get("out", ""))
+    cls = "SemsegTransformWrapper"
+    desc = ",".join(s["t"] + (str(s["size"]).replace(" ", "") if "size" in s else "") + (f"(p={s['p']})" if "p" in s else "") for s in case["steps"])
+    tag = (f"{cls}[{desc}] images={case['images']} ({case.get('kind', 'f32')}) seed={case.get('seed')} history={case.get('hist', 'fresh')} "
+           f"peer={bool(case.get('peer'))} subset={case.get('indices')}")
+    if out.startswith("ctor:"):
+        return None
+    if out != "ok":
+        return Failure(f"{cls}:exception", f"raises {real.get('msg', out)}: {tag}", case, "image and mask", real.get("msg", out))
+    for rec in real["records"]:
+        h, w = case["images"][rec["src"]]
+        where = f"sample {rec['idx']} ({h}x{w}) epoch {rec['ep']} access={rec['how']}"
+        x, s = rec["x"], rec["s"]
+        if not (torch.is_tensor(x) and torch.is_tensor(s) and x.dim() == 3 and s.dim() == 2):
+            return Failure(f"{cls}:output-size", f"{where}: output is not an image / mask pair: {tag}", case, "(3,h,w) and (h,w)",
+                           [str(getattr(x, "shape", type(x))), str(getattr(s, "shape", type(s)))])
+        xs, ss = list(x.shape[-2:]), list(s.shape[-2:])
+        if xs != ss:
+            return Failure(f"{cls}:pair-size", f"{where}: image is {xs} but mask is {ss}: {tag}", case, xs, ss)
+        want = wpipe_size(case["steps"], h, w)
+        if xs != want:
+            return Failure(f"{cls}:output-size", f"{where}: output size {xs} instead of {want}: {tag}", case, want, xs)
+        xr = x.double().round().long()
+        if not aligned(xr, s, w):
+            bad = "image and mask of the same sample show different positions (decoded from the coordinate encoding)"
+            key = "pair-geometry" if rec["how"] in ("fused", "modefused", "modefused_sx") else "separate-access"
+            return Failure(f"{cls}:{key}", f"{where}: {bad}: {tag}", case, "aligned", "differs")
+    return None
+
+
+def sig_wpipe(case, real):
+    ks = [s["t"] for s in case["steps"]]
+    first_pair = next((i for i, k in enumerate(ks) if k in ("crop", "flip")), None)
+    x_before = first_pair is not None and any(k in WPIPE_XONLY for k in ks[:first_pair])
+    return ("semseg", "wpipe", case.get("kind"), tuple(sorted(set(ks))), x_before, case.get("seed") is None, tuple(case["access"]), case.get("hist", "fresh"),
+            bool(case.get("peer")), case.get("indices") is not None, real.get("out"))
+
+
+def gen_wpipe(rng, big=False):
+    n_img = rng.randint(1, 3)
+    images = [[rng.randint(1, 40), rng.randint(1, 40)] for _ in range(n_img)]
+    th, tw = rng.choice([1, 3, 8, 12, 16, 24, 33]), rng.choice([1, 3, 8, 12, 16, 24, 33])
+    pair = []
+    if rng.random() < 0.7:
+        pair.append({"t": "pad", "size": [th, tw]})
+    pair.append({"t": "crop", "size": [th, tw] if rng.random() < 0.7 else [rng.randint(1, 20), rng.randint(1, 20)]})
+    if rng.random() < 0.8:
+        pair.append({"t": "flip", "p": rng.choice([0.5, 0.5, 0.5, 0.3, 1.0])})
+    if rng.random() < 0.3:
+        pair.append({"t": "crop", "size": [rng.randint(1, th), rng.randint(1, tw)]})
+    rng.shuffle(pair)
+    steps = list(pair)
+    for _ in range(rng.choice([0, 1, 1, 2, 3])):
+        k = rng.choice(WPIPE_XONLY)
+        st = {"t": k}
+        if k in ("rnoise", "apply"):
+            st["p"] = rng.choice([0.5, 0.5, 0.2, 1.0, 0.0])
+        steps.insert(rng.randint(0, len(steps)), st)
+    seed = rng.choice([None, rng.randint(0, 10 ** 6), rng.randint(0, 10 ** 6), rng.randint(0, 50)])
+    fused = ["fused", "modefused", "modefused_sx"]
+    sep = ["getitem_xs", "getitem_sx", "mode_xs", "mode_sx", "mixed"]
+    if seed is None:
+        access = rng.sample(fused, rng.randint(1, 2))          # without a seed only a joint request promises a common draw
+    else:
+        access = rng.sample(sep, rng.randint(1, 2)) + rng.sample(fused, rng.randint(0, 1))
+        rng.shuffle(access)
+    case = {"fam": "semseg", "sub": "wpipe", "H": images[0][0], "W": images[0][1], "images": images, "kind": rng.choice(["f32", "f32", "f64", "u8"]),
+            "steps": steps, "seed": seed, "access": access, "epochs": rng.choice([1, 1, 2]),
+            "hist": rng.choice(["fresh", "fresh", "pickle", "deepcopy"]), "peer": rng.random() < 0.25}
+    n = n_img
+    if rng.random() < 0.25:
+        idxs = list(range(n_img)) + [rng.randrange(n_img) for _ in range(rng.randint(0, 2))]
+        rng.shuffle(idxs)
+        case["indices"] = idxs
+        n = len(idxs)
+    order = list(range(n))
+    rng.shuffle(order)
+    case["order"] = order[:3]
+    return case
+
+
+def wpipe_sweep_cases():
+    """structured part: an image-only stochastic transform at every position of [pad, crop, flip] x separate / fused access x seeds"""
+    out = []
+    base = [{"t": "pad", "size": [16, 24]}, {"t": "crop", "size": [16, 24]}, {"t": "flip", "p": 0.5}]
+    k = 0
+    for xonly in ({"t": "noise"}, {"t": "rnoise", "p": 0.5}, {"t": "unoise"}, {"t": "apply", "p": 0.5}):
+        for pos in range(len(base) + 1):
+            steps = base[:pos] + [xonly] + base[pos:]
+            k += 1
+            out.append({"fam": "semseg", "sub": "wpipe", "H": 32, "W": 32, "images": [[32, 32], [17, 33], [12, 50]], "kind": "f32", "steps": steps,
+                        "seed": k % 5, "access": [["getitem_xs", "modefused"], ["mode_sx", "fused"], ["getitem_sx"], ["mode_xs", "mixed"]][k % 4],
+                        "epochs": 2, "hist": "fresh", "peer": False, "order": [0, 1, 2]})
+    return out
 
 
 # ----------------------------------------------------------------------------------------------
@@ -2241,7 +2487,7 @@ def sweep_cases():
                 for lw in (1, 3):
                     for sub in ("image", "plain", "shuffle", "patchwise"):
                         out.append({"fam": "patch", "sub": sub, "c": 2, "H": ph * lh, "W": pw * lw, "ph": ph, "pw": pw, "seed": ph + 3 * lh})
-    return out + comp_sweep_cases()
+    return out + wpipe_sweep_cases() + comp_sweep_cases()
 
 
 def eval_cases(driver, cases):
@@ -2367,8 +2613,9 @@ class C14(PropertyCheck):
                 corpus += d if isinstance(d, list) else [d]
         sweep = sweep_cases()
         if self.tier == "quick":
-            fixed = [c for c in sweep if c["fam"] == "comp"]        # the structured compositions always run
-            sweep = [c for c in sweep if c["fam"] != "comp"]
+            always = lambda c: c["fam"] == "comp" or c.get("sub") == "wpipe"
+            fixed = [c for c in sweep if always(c)]        # the structured compositions always run
+            sweep = [c for c in sweep if not always(c)]
             self.rng.shuffle(sweep)
             sweep = sweep[:400] + fixed
         mult = 1 if self.tier == "quick" else 8
@@ -2384,7 +2631,7 @@ class C14(PropertyCheck):
         res.rule = (f"{ncorp} corpus + {nsweep} sweep cases (every size relation <<,-1,=,+1,>> of image vs target in both dimensions for the crop classes and the "
                     f"segmentation pad/crop/pipeline, small patch grids{'; sampled' if self.tier == 'quick' else '; complete'}) + seeded random cases per family "
                     "(crops incl. padding modes / pad_if_needed / PIL+tensor, resized crop incl. never-accepting scales and extreme ratios, erasing, spec "
-                    "augment, segmentation transforms + SemsegTransformWrapper pipeline, patchify/shuffle/unpatchify + random einops patterns, norms, box "
+                    "augment, segmentation transforms + SemsegTransformWrapper pipeline (fixed pad/crop/flip against the model; free orders with stochastic image-only transforms in between, members requested together or one after the other, pickled / deep-copied / peer wrappers -- oracle only), patchify/shuffle/unpatchify + random einops patterns, norms, box "
                     "intersection, grid ops, compositions: recording transforms through KDMultiViewWrapper / XTransformWrapper / KDComposeTransform / KDRandomApply / "
                     "KDTransformChoice over plain, subset and transform-wrapped datasets, late judgement of every view's own ctx, pickled / deep-copied and "
                     "peer instances, uint8 / float32 / float64 / 1-channel / PIL inputs -- oracle only, no model); image sizes 1..40, targets 1..33; distinct = per-family signature (class, input kind, size relations, "
